@@ -6,26 +6,49 @@
 (*   - it is stored once,                                                      *)
 (*   - its value is the last one written since that insertion,                 *)
 (*   - iteration order is first-insertion order of the surviving keys.         *)
+(* The history holds single calls only: a removal through the stored key       *)
+(* object (EraseAt) is the removal of that key, a write through at_index() or  *)
+(* an iterator is a write to the key found there, a failed insertion is no     *)
+(* call at all, and a macro action contributes the calls it stands for.        *)
+(* (The second map is not used here: Ext must not contain "two".)              *)
 EXTENDS OrderedMap
 
-CONSTANT K                      \* history length bound
-VARIABLE hist
-varsH == <<m, last, hist>>
+CONSTANT K                      \* history length bound (in steps)
+VARIABLES hist, steps
+varsH == <<m, s, last, hist, steps>>
 
-Mutators == {"Put", "AtAssign", "GetOrInsert", "Erase", "Clear"}
+ASSUME "two" \notin Ext
 
-InitH == Init /\ hist = <<>>
-NextH == Next /\ hist' = IF last'.a \in Mutators THEN Append(hist, [a |-> last'.a, arg |-> last'.arg]) ELSE hist
+InitH == Init /\ hist = <<>> /\ steps = 0
+
+Call(a, arg) == [a |-> a, arg |-> arg]
+\* the single calls a step stands for
+CallsOf(l) ==
+  CASE l.a \in {"Put", "AtAssign"}      -> <<Call(l.a, [k |-> l.arg.k, v |-> l.arg.v])>>
+    [] l.a = "GetOrInsert"              -> <<Call("GetOrInsert", [k |-> l.arg.k])>>
+    [] l.a = "Erase"                    -> <<Call("Erase", [k |-> l.arg.k])>>
+    [] l.a = "EraseAt"                  -> IF l.arg.k = -1 THEN <<>> ELSE <<Call("Erase", [k |-> l.arg.k])>>
+    [] l.a = "Clear"                    -> <<Call("Clear", <<>>)>>
+    [] l.a \in {"AtIndexAssign", "IterAssign"} ->
+          IF l.arg.k = -1 THEN <<>> ELSE <<Call("AtAssign", [k |-> l.arg.k, v |-> l.arg.v])>>
+    [] l.a = "PutRange"                 -> [i \in 1..l.arg.n |-> Call("Put", [k |-> l.arg.lo + i - 1, v |-> RV(l.arg.lo + i - 1, l.arg.d)])]
+    [] l.a = "EraseEvery"               ->
+          LET ks == SelectSeq([i \in 1..l.arg.n |-> l.arg.lo + i - 1], LAMBDA k : k % l.arg.st = l.arg.r)
+          IN  [i \in 1..Len(ks) |-> Call("Erase", [k |-> ks[i]])]
+    [] OTHER                            -> <<>>
+
+NextH == Next /\ hist' = hist \o CallsOf(last') /\ steps' = steps + (IF CallsOf(last') = <<>> THEN 0 ELSE 1)
 SpecH == InitH /\ [][NextH]_varsH
 
 MaxOf(S) == CHOOSE x \in S : \A y \in S : y <= x
 MinOf(S) == CHOOSE x \in S : \A y \in S : x <= y
 
+AllKeys        == Keys \cup {hist[i].arg.k : i \in {j \in DOMAIN hist : hist[j].a # "Clear"}}
 IsInsert(i, k) == hist[i].a \in {"Put", "GetOrInsert"} /\ hist[i].arg.k = k
 IsKill(i, k)   == hist[i].a = "Clear" \/ (hist[i].a = "Erase" /\ hist[i].arg.k = k)
 LastKill(k)    == LET S == {i \in DOMAIN hist : IsKill(i, k)} IN IF S = {} THEN 0 ELSE MaxOf(S)
 Births(k)      == {i \in DOMAIN hist : i > LastKill(k) /\ IsInsert(i, k)}
-Present        == {k \in Keys : Births(k) # {}}
+Present        == {k \in AllKeys : Births(k) # {}}
 Birth(k)       == MinOf(Births(k))
 Writes(k)      == {i \in DOMAIN hist : i >= Birth(k) /\ hist[i].a \in {"Put", "AtAssign"} /\ hist[i].arg.k = k}
 Value(k)       == IF Writes(k) = {} THEN Default ELSE hist[MaxOf(Writes(k))].arg.v
@@ -35,6 +58,7 @@ RefSeq         == [i \in 1..Cardinality(Present) |->
 
 \* the operational model agrees with the declarative reading after every history
 AgreesWithHistory == m = RefSeq
-HistBound == Len(hist) <= K
-View == <<m, hist>>
+\* (an AtAssign on an absent key is in the history too: at() threw, nothing was written - Writes(k) starts at the birth)
+HistBound == steps <= K
+View == <<m, hist, steps>>
 ===============================================================================
